@@ -123,6 +123,43 @@ def run(rng, tier, model_ok):
                 return None
             items.append(("%s + %s %s" % (ys, xs, a), adopt))
             items.append(("%s %s - %s" % (xs, a, ys), adopt))
+    # operands that are the result of arithmetic: a plain number over a quantity has the inverse dimensions, a power the multiple
+    simple = ["s", "m", "kg", "hr", "ft", "N", "Hz", "l"]
+    sread = dict(zip(simple, unitlib.impl_units(simple)))
+    for _ in range(60 if tier == "quick" else 800):
+        u = rng.choice(simple)
+        nu = sread[u]
+        if not nu:
+            continue
+        p_, q_, r_ = rng.randint(1, 20), rng.randint(1, 9), rng.randint(1, 9)
+        inv_dims = {k: -v for k, v in V.dims(nu).items()}
+        inv_si = Fraction(p_, q_) / V.scale(nu)
+        shapes = [("%d / %d %s" % (p_, q_, u), inv_si, inv_dims), ("(%d %s)^-1 * %d" % (q_, u, p_), inv_si, inv_dims),
+                  ("%d * (1 / %d %s)" % (p_, q_, u), inv_si, inv_dims)]
+        lhs, lsi, ldims = rng.choice(shapes)
+        same = "%d %s^-1" % (r_, u)
+        other = "%d %s" % (r_, u)
+        for rhs, rsi, rdims in ((same, Fraction(r_) / V.scale(nu), inv_dims), (other, r_ * V.scale(nu), V.dims(nu))):
+            comm = rdims == ldims
+
+            def co(reply, comm=comm, want=lsi + rsi, dims=ldims):
+                if not comm:
+                    return None if pipeline.is_error(reply) else {"why": "dimensions differ but the sum was accepted", "expected": "error"}
+                v = pipeline.single_value(reply)
+                if v is None or V.si(v[0], v[1], v[2]) != want or V.dims(v[2]) != dims:
+                    return {"why": "same base dimensions: expected SI %s with %s" % (want, dims), "expected": str(want)}
+                return None
+            items.append(("%s + %s" % (lhs, rhs), co))
+            stats["commensurable" if comm else "mismatching"] += 1
+
+            def cc(reply, comm=comm, want=lsi, dims=rdims):
+                if not comm:
+                    return None if pipeline.is_error(reply) else {"why": "dimensions differ but the cast was accepted", "expected": "error"}
+                v = pipeline.single_value(reply)
+                if v is None or V.si(v[0], v[1], v[2]) != want or V.dims(v[2]) != dims:
+                    return {"why": "same base dimensions: expected SI %s with %s" % (want, dims), "expected": str(want)}
+                return None
+            items.append(("%s to %s" % (lhs, rhs.split(" ", 1)[1]), cc))
     # every unit against a representative of every dimension: a cast succeeds exactly when the dimensions agree, whatever the target
     for q, na, nt in unitlib.cast_matrix(V, rng, tier):
         comm = V.dims(na) == V.dims(nt)
